@@ -299,6 +299,11 @@ func runCase(c c11Case) (problem string, stats map[string]int) {
 				if nfl%2 == 1 {
 					// an id-carrying Flush compares with the server's highest id (mostly rejected: NOT_PRIMARY)
 					fs = drv.FlushSpec{Elec: "id", ID: &drv.U128{Lo: uint64(nfl)}, NI: "name", Name: 3}
+					if nfl%4 == 3 {
+						// ... or lies above every id a session announces: a Flush is judged against the election state,
+						// it never changes it
+						fs.ID = &drv.U128{Hi: 1 << 40, Lo: uint64(nfl)}
+					}
 				}
 				nfl++
 				_, h := x.D.DoFlush(fs.FlushReq())
